@@ -42,36 +42,27 @@ def Factors.transpose (f : Factors α) : Factors α :=
 
 /-! ### tridiagonal solve (`solve_tridiagonal`) -/
 
-structure Fwd (α : Type) where
-  bet : α
-  res : List α      -- result(0..i), reversed (head = result(i))
-  gam : List α      -- gam(1..i), reversed
-  zeroPivot : Bool
+/-- forward sweep: `(bet i, gam i, result(i) after the forward loop)`; `gam 0` is unused -/
+def fwd (S : Scalar α) (lower diag upper vec : Nat → α) : Nat → α × α × α
+  | 0 => (diag 0, S.zero, S.div (vec 0) (diag 0))
+  | i + 1 =>
+    let p := fwd S lower diag upper vec i
+    let g := S.div (upper i) p.1
+    let b := S.sub (diag (i + 1)) (S.mul (lower (i + 1)) g)
+    (b, g, S.div (S.sub (vec (i + 1)) (S.mul (lower (i + 1)) p.2.2)) b)
 
-/-- forward sweep over rows `1..n-1` -/
-def fwdStep (S : Scalar α) (lower diag upper vec : Nat → α) (s : Fwd α) (i : Nat) : Fwd α :=
-  let g := S.div (upper (i - 1)) s.bet
-  let bet := S.sub (diag i) (S.mul (lower i) g)
-  let prev := s.res.headD S.zero
-  { bet := bet, res := S.div (S.sub (vec i) (S.mul (lower i) prev)) bet :: s.res, gam := g :: s.gam,
-    zeroPivot := s.zeroPivot || S.beq bet S.zero }
+/-- back substitution for a system of size `m + 1`, as a function of the distance from the last
+row: `result(i) -= gam(i+1) * result(i+1)` -/
+def xback (S : Scalar α) (lower diag upper vec : Nat → α) (m : Nat) : Nat → α
+  | 0 => (fwd S lower diag upper vec m).2.2
+  | k + 1 => S.sub (fwd S lower diag upper vec (m - (k + 1))).2.2
+               (S.mul (fwd S lower diag upper vec (m - k)).2.1 (xback S lower diag upper vec m k))
 
-/-- back substitution: `result(i) -= gam(i+1) * result(i+1)` from `n-2` down to `0`.
-`resRev` = result(n-1), …, result(0); `gamRev` = gam(n-1), …, gam(1). Returns result(0..n-1). -/
-def backSub (S : Scalar α) : List α → List α → List α → List α
-  | [], _, acc => acc
-  | x :: xs, gs, [] => backSub S xs gs [x]
-  | x :: xs, g :: gs, nxt :: acc => backSub S xs gs (S.sub x (S.mul g nxt) :: nxt :: acc)
-  | x :: xs, [], acc => backSub S xs [] (x :: acc)
-
-/-- `none` = "division by zero while solving tri-diagonal system" -/
+/-- `none` = "division by zero while solving tri-diagonal system" (a vanishing pivot) -/
 def thomas (S : Scalar α) (n : Nat) (lower diag upper vec : Nat → α) : Option (List α) :=
   if n = 0 then some []
-  else if S.beq (diag 0) S.zero then none
-  else
-    let s0 : Fwd α := { bet := diag 0, res := [S.div (vec 0) (diag 0)], gam := [], zeroPivot := false }
-    let s := (List.range' 1 (n - 1)).foldl (fwdStep S lower diag upper vec) s0
-    if s.zeroPivot then none else some (backSub S s.res s.gam [])
+  else if (List.range n).any (fun j => S.beq (fwd S lower diag upper vec j).1 S.zero) then none
+  else some ((List.range n).map (fun i => xback S lower diag upper vec (n - 1) (n - 1 - i)))
 
 /-! ### one half step (`solve_adi_row`) -/
 
